@@ -79,7 +79,7 @@ func init() {
 		return fmt.Sprintf("def %s : Bool := %v", f.Lean, ok), nil
 	})
 	// call_order: inside the function, the first call whose printed callee contains First
-	// textually precedes the first call whose callee contains Then, and both exist.
+	// textually precedes the first (args.then = "last": the last) call whose callee contains Then, and both exist.
 	Register("call_order", func(repo string, f Fact) (string, error) {
 		fset, fd, err := findFunc(repo, f.File, f.Func)
 		if err != nil {
@@ -95,7 +95,8 @@ func init() {
 			if p1 == 0 && strings.Contains(s, f.First) {
 				p1 = c.Pos()
 			}
-			if p2 == 0 && strings.Contains(s, f.Then) {
+			// args.then = "last": compare with the last call whose callee contains Then
+			if (p2 == 0 || f.Args["then"] == "last") && strings.Contains(s, f.Then) {
 				p2 = c.Pos()
 			}
 			return true
